@@ -1089,7 +1089,7 @@ static void enumerate(bool thorough, Stats& top) {
 	top.set_info("sample_files", (long long) nfiles);
 	size_t nmodels = 0;
 	std::vector<int> clashes = thorough ? std::vector<int>{0, 1, 2, 3, 4} : std::vector<int>{0, 1, 2, 4};
-	std::vector<int> meshes = thorough ? std::vector<int>{0, 1, 2, 3} : std::vector<int>{0, 2, 3};
+	std::vector<int> meshes = thorough ? std::vector<int>{0, 1, 2, 3, 4} : std::vector<int>{0, 2, 3, 4};
 	for (int ver = 0; ver < 2; ver++)
 		for (int skin = 0; skin < 5; skin++)
 			for (int kind = 0; kind < 4; kind++)
@@ -1100,6 +1100,8 @@ static void enumerate(bool thorough, Stats& top) {
 								for (int mesh : meshes) {
 									// the 85-bone mesh only in the plain variants (its point is the bone-limit split)
 									if (mesh == 3 && (kind != 0 || col != 0 || msn != 0 || clash != 0 || shader != 0 || skin == 0)) continue;
+									// the mesh with a triangle outside every partition: skinned LE triangle-list models, plain variants
+									if (mesh == 4 && (ver != 0 || kind != 0 || col != 0 || msn != 0 || clash != 0 || shader != 0 || skin == 0)) continue;
 									Recipe r;
 									r.ver = ver;
 									r.skin = skin;
